@@ -429,8 +429,9 @@ def correspondence(ctx):
     if bad_nest:
         ctx.violation(bad_nest, dict(tie='loop nest of the connection kernels'), found_input=False)
         return
-    if kt_kr_correspondence(ctx, rng):
+    if kt_kr_correspondence(ctx, rng) and any(v['found_input'] for v in ctx.violations):
         return
+    # (a broken tie without a failing input: the streams below go on looking for one)
     dist = dict(kinds={}, order={}, interior=0)
     for t in range(ctx.scale(30, 300)):
         case = gen(ctx, rng)
